@@ -18,6 +18,7 @@ pub fn datas() -> Vec<Value> {
         json!({"a": {"b": 1, "c": null}, "a.b": 2}),
         json!({"1": "one", "x": ["p", "q"]}),
         json!(["p", null]),
+        json!({"x": "hé", "a": [0]}),
         json!("hé"),
         json!(null),
         json!(3),
@@ -27,10 +28,10 @@ pub fn datas() -> Vec<Value> {
 pub fn keys(thorough: bool) -> Vec<Value> {
     let mut k = vec![
         json!("a"), json!("b"), json!("zz"), json!("a.b"), json!("a.c"), json!("a\\.b"), json!(1), json!(0), json!(-1),
-        json!("x.1"), json!(null), json!(""),
+        json!("x.1"), json!(null), json!(""), json!("x.-1"), json!("-1"),
     ];
     if thorough {
-        k.extend([json!("c"), json!("x.-1"), json!("x.2"), json!(5), json!("1"), json!("a.b.c")]);
+        k.extend([json!("c"), json!("x.-3"), json!("x.2"), json!(5), json!("1"), json!("a.b.c"), json!("-2"), json!("0")]);
     }
     k
 }
